@@ -332,8 +332,8 @@ func (ch *channel) receivedSegData(rsd recSegData) {
 						return
 					}
 					dur := sdb.items[1].dur
-					ch.masterSegDuration = dur
 					ch.mu.Lock()
+					ch.masterSegDuration = dur
 					rd := ch.trDatas[name]
 					ch.masterTimescale = rd.timeScaleOut
 					segTime0 := int64(sdb.items[0].dts)
